@@ -119,7 +119,10 @@ class Recorder(EventHandler):
 
 def run_recording(events, ns_map, cfg):
     d = user_dict(ns_map)
-    rec = Recorder(make_cfg(cfg), namespaces.clean_prefixes(d) if d else {})
+    try:
+        rec = Recorder(make_cfg(cfg), namespaces.clean_prefixes(d) if d else {})
+    except Exception as e:  # noqa: BLE001  (validate_prefixes: nothing was sent)
+        return [], type(e).__name__
     try:
         rec.write(iter(decode_events(events)))
     except Exception as e:  # noqa: BLE001
